@@ -1,9 +1,146 @@
 import StraxModel.Driver.Parse
-namespace Strax.Driver
-open Strax
+import StraxModel.Model.FS
+/-
+  Driver ops of property C04 (crash safety of the save protocol).
 
-/-- ops of property C04 (stub: no ops yet) -/
+    c04.run <chunks> <attempt> …      run `make` attempts one after the other on one key, starting from the empty
+                                      file system; one `;`-separated report per attempt
+    c04.ops <variant> <recheck> <chunks>   the fault-free op list of the protocol
+
+  chunks   `-` or `/`-separated `start;stop;rows`            (rows as everywhere: `t:e:id,…` or `-`)
+  attempt  `variant|recheck|rmorder|fault|extraStart|extraChunks|abandoned|show`
+           variant ser|exe|frk, recheck 1 (fixed protocol) | 0 (old protocol, D3), rmorder li|mf|ml,
+           fault `none` | `exc@k` | `db@k` | `da@k` (k-th FS operation of the attempt) | `ab@k` (exception thrown in after k ops)
+  report   `<result> find=<ok|err Kind> load=<ok chunks|err Kind> d12=<0|1> ops=<op,op,…>`
+-/
+namespace Strax.Driver.C04
+open Strax Strax.FS Strax.Driver
+
+def c04Chunk (i : String) : Option Chunk :=
+  match i.splitOn ";" with
+  | [a, b, rows] => do
+    let rows ← parseRows rows
+    pure { dataType := "d", kind := "k", runId := some "0", start := ← a.toInt?, stop := ← b.toInt?, rows,
+           subruns := none, superrun := [], target := 0 }
+  | _ => none
+
+def c04Chunks (s : String) : Option (List Chunk) :=
+  if s == "-" then some [] else (s.splitOn "/").mapM c04Chunk
+
+def c04Variant : String → Option Variant
+  | "ser" => some .serial | "exe" => some .executor | "frk" => some .forked | _ => none
+
+def c04RmOrder : String → Option RmOrder
+  | "li" => some .listed | "mf" => some .metaFirst | "ml" => some .metaLast | _ => none
+
+def c04Fault (s : String) : Option (Option Fault) :=
+  if s == "none" then some none else
+  match s.splitOn "@" with
+  | ["exc", k] => do pure (some ⟨← k.toNat?, .exc⟩)
+  | ["db", k] => do pure (some ⟨← k.toNat?, .dieBefore⟩)
+  | ["da", k] => do pure (some ⟨← k.toNat?, .dieAfter⟩)
+  | ["ab", k] => do pure (some ⟨← k.toNat?, .abort⟩)
+  | _ => none
+
+def showDirId : DirId → String
+  | .final => "F" | .temp => "T"
+
+def showName : Name → String
+  | .md => "m" | .chunk i => s!"c{i}" | .tmp i => s!"t{i}" | .cmeta i => s!"x{i}"
+
+def showContent : Content → String
+  | .empty => "0"
+  | .rows rs => "r" ++ ".".intercalate (rs.map (toString ·.id))
+  | .json m => s!"j{m.chunks.length}{if m.ended then "e" else "-"}{if m.exc then "x" else "-"}"
+  | .info ci => s!"i{ci.i}"
+
+def showOp : Op → String
+  | .existsDir d => s!"exists:{showDirId d}"
+  | .listdir d => s!"listdir:{showDirId d}"
+  | .glob d => s!"glob:{showDirId d}"
+  | .read d n => s!"read:{showDirId d}:{showName n}"
+  | .mkdir d => s!"mkdir:{showDirId d}"
+  | .openTrunc d n => s!"open:{showDirId d}:{showName n}"
+  | .write d n c => s!"write:{showDirId d}:{showName n}:{showContent c}"
+  | .close d n => s!"close:{showDirId d}:{showName n}"
+  | .rename d a b => s!"mv:{showDirId d}:{showName a}:{showName b}"
+  | .renameDir a b => s!"mvdir:{showDirId a}:{showDirId b}"
+  | .unlink d n => s!"rm:{showDirId d}:{showName n}"
+  | .rmdir d => s!"rmdir:{showDirId d}"
+
+def showOps (l : List Op) : String := if l.isEmpty then "-" else ",".intercalate (l.map showOp)
+
+def showResult : Result → String
+  | .success => "success" | .raised => "raised" | .died => "died" | .stored => "stored" | .corrupted => "corrupted"
+
+def showLoaded (cs : List Chunk) : String :=
+  if cs.isEmpty then "-" else "/".intercalate (cs.map fun c => s!"{c.start}.{c.stop}.{showIds c.rows}")
+
+def showUnit (r : Except Err Unit) : String :=
+  match r with
+  | .ok _ => "ok"
+  | .error e => "err " ++ e.name
+
+def showLoad (r : Except Err (List Chunk)) : String :=
+  match r with
+  | .ok cs => "ok " ++ showLoaded cs
+  | .error e => "err " ++ e.name
+
+structure C04Attempt where
+  v : Variant
+  recheck : Bool
+  order : RmOrder
+  fault : Option Fault
+  extraStart : Nat
+  extra : List Chunk
+  abandoned : Bool
+  show_ : String      -- which parts of the report to print: r(esult) o(ps) l(isting)
+
+def c04Attempt (s : String) : Option C04Attempt :=
+  match s.splitOn "|" with
+  | [v, r, o, f, es, ex, ab, sh] => do
+    pure ⟨← c04Variant v, ← parseBool r, ← c04RmOrder o, ← c04Fault f, ← es.toNat?, ← c04Chunks ex, ← parseBool ab, sh⟩
+  | _ => none
+
+def nameKey : Name → Nat × Nat
+  | .md => (0, 0) | .chunk i => (1, i) | .tmp i => (2, i) | .cmeta i => (3, i)
+
+def showDir : Option Dir → String
+  | none => "-"
+  | some d =>
+    let ns := (d.map (·.1)).mergeSort (fun a b => let x := nameKey a; let y := nameKey b; x.1 < y.1 || (x.1 == y.1 && x.2 ≤ y.2))
+    "[" ++ ",".intercalate (ns.map showName) ++ "]"
+
+def c04Report (fs : FS) (cs : List Chunk) (a : C04Attempt) : FS × String :=
+  let (c, res) := attempt fs a.v a.recheck cs ⟨a.v, a.extra, a.extraStart, a.abandoned⟩ a.order a.fault
+  let has (ch : Char) : Bool := a.show_.toList.contains ch
+  let r := if has 'r' then showResult res else "*"
+  let o := if has 'o' then showOps c.log.reverse else "*"
+  let l := if has 'l' then s!"F{showDir c.fs.final}T{showDir c.fs.temp}" else "*"
+  (c.fs, s!"{r} find={showUnit (find c.fs)} load={showLoad (loads c.fs)} d12={if D12 c.fs then 1 else 0} ls={l} ops={o}")
+
+def c04Run (cs : List Chunk) : FS → List C04Attempt → List String
+  | _, [] => []
+  | fs, a :: rest =>
+    let (fs', line) := c04Report fs cs a
+    line :: c04Run cs fs' rest
+
+end Strax.Driver.C04
+
+namespace Strax.Driver
+open Strax Strax.FS Strax.Driver.C04
+
 def handleC04 : List String → Option String
+  | "c04.run" :: chunks :: attempts => do
+    let cs ← c04Chunks chunks
+    let as ← attempts.mapM c04Attempt
+    pure <| " ; ".intercalate (c04Run cs FS.empty as)
+  | ["c04.ops", v, r, chunks] => do
+    let cs ← c04Chunks chunks
+    let v ← c04Variant v
+    let r ← parseBool r
+    let (c, _) := attempt FS.empty v r cs ⟨v, [], 0, false⟩ .listed none
+    pure <| showOps c.log.reverse
   | _ => none
 
 end Strax.Driver
